@@ -605,8 +605,84 @@ impl Space for Built {
     }
 }
 
+
+/// The same cell written twice (three times in the thorough tier), optionally with a save + reload in between: the value a
+/// cell had before must leave nothing behind (kind, cached result, formula, shared-string item of a loaded cell).
+struct Overwrite {
+    values: Vec<V>,
+    depth: usize,
+}
+const BOUNDARIES: [&str; 3] = ["same-object", "reload-between", "reload-between-light"];
+impl Overwrite {
+    fn decode(&self, i: u64) -> (Vec<usize>, usize) {
+        let n = self.values.len() as u64;
+        let b = (i % BOUNDARIES.len() as u64) as usize;
+        let mut r = i / BOUNDARIES.len() as u64;
+        let mut idx = vec![];
+        for _ in 0..self.depth {
+            idx.push((r % n) as usize);
+            r /= n;
+        }
+        (idx, b)
+    }
+}
+impl Space for Overwrite {
+    fn len(&self) -> u64 {
+        (self.values.len() as u64).pow(self.depth as u32) * BOUNDARIES.len() as u64
+    }
+    fn describe(&self, i: u64) -> Value {
+        let (idx, b) = self.decode(i);
+        json!({"kind":"overwrite","writes": idx.iter().map(|k| self.values[*k].json()).collect::<Vec<_>>(), "boundary": BOUNDARIES[b]})
+    }
+    fn tags(&self, i: u64) -> Vec<String> {
+        let (idx, b) = self.decode(i);
+        let mut t = self.values[*idx.last().unwrap()].tags();
+        for k in &idx[..idx.len() - 1] {
+            for x in self.values[*k].tags() {
+                t.push(format!("earlier:{}", x));
+            }
+        }
+        t.push(format!("boundary:{}", BOUNDARIES[b]));
+        t.sort();
+        t.dedup();
+        t
+    }
+    fn run(&self, i: u64, sink: &mut Sink) {
+        let (idx, b) = self.decode(i);
+        let tags = self.tags(i);
+        let tg: Vec<&str> = tags.iter().map(|s| s.as_str()).collect();
+        let case = self.describe(i);
+        let mut book = new_file();
+        book.get_sheet_mut(&0).unwrap().get_cell_mut("A1").set_value_string("anchor");
+        for (n, k) in idx.iter().enumerate() {
+            self.values[*k].apply(book.get_sheet_mut(&0).unwrap().get_cell_mut("B2"));
+            if b > 0 && n + 1 < idx.len() {
+                match roundtrip(&book, b == 2) {
+                    Ok((_, b2)) => book = b2,
+                    Err(e) => {
+                        sink.violations.push(Violation::new("roundtrip-succeeds", &format!("failed:{}", panic_class(&e)), &tg, case.clone(), format!("intermediate generation: {}", e)));
+                        return;
+                    }
+                }
+            }
+        }
+        check_book(&book, i % 2 == 1, &tags, &case, sink);
+        // differential: the history must end in the same content as writing the last value into a fresh cell
+        let mut fresh = new_file();
+        fresh.get_sheet_mut(&0).unwrap().get_cell_mut("A1").set_value_string("anchor");
+        self.values[*idx.last().unwrap()].apply(fresh.get_sheet_mut(&0).unwrap().get_cell_mut("B2"));
+        if let (Ok((_, h)), Ok((_, f))) = (roundtrip(&book, false), roundtrip(&fresh, false)) {
+            let (ch, cf) = (content(&h), content(&f));
+            if let Some((path, l, r)) = first_diff(&ch, &cf) {
+                sink.violations.push(Violation::new("history-independent", &format!("residue:{}", classify(&path, &l, &r)), &tg, case.clone(), format!("{}: after the history {} but {} when only the last value is written", path, l, r)));
+            }
+        }
+    }
+}
+
 pub fn space(tier: Tier, id: &str) -> Option<Box<dyn Space>> {
     match id {
+        "overwrite" => Some(Box::new(Overwrite { values: core16(), depth: if tier == Tier::Thorough { 3 } else { 2 } })),
         "built" => Some(Box::new(Built { values: core16() })),
         "singles" => Some(Box::new(Singles { values: single_values(tier) })),
         "pairs" => Some(Box::new(Pairs { values: core_values() })),
@@ -621,7 +697,7 @@ fn replay(tier: Tier, case: &Value) -> Vec<Violation> {
 }
 
 fn run(ctx: &Ctx) -> i32 {
-    let ids: Vec<&'static str> = if ctx.tier == Tier::Thorough { vec!["singles", "pairs", "triples", "grid", "built"] } else { vec!["singles", "pairs", "grid", "built"] };
+    let ids: Vec<&'static str> = if ctx.tier == Tier::Thorough { vec!["singles", "pairs", "triples", "grid", "built", "overwrite"] } else { vec!["singles", "pairs", "grid", "built", "overwrite"] };
     let spaces = ids.iter().map(|id| (*id, space(ctx.tier, id).unwrap())).collect();
     run_e1(
         ctx,
@@ -629,7 +705,7 @@ fn run(ctx: &Ctx) -> i32 {
             spaces,
             cfg: PoolCfg { chunk: 64, case_timeout: std::time::Duration::from_secs(60), ..Default::default() },
             level: "exploration",
-            rule: "every workbook of: (singles) each value of the value alphabet x 9 positions x both writers; (pairs) every ordered pair of the 70-value core in 3 layouts (same row, same column, two sheets); (triples, thorough) every ordered triple of a 16-value core; (grid) every m*10^e, m=1..999, e=-20..20, both signs; (built) each value of the 16-value core in a workbook whose cells reached their place through 8 structural API calls (move/copy into fresh rows, insert/remove rows and columns). Oracle: content projection (cell set, value text, kind, raw variant, f64 bits, rich runs, formula text) before save == after reload. distinct_nontrivial = distinct reloaded content dumps".into(),
+            rule: "every workbook of: (singles) each value of the value alphabet x 9 positions x both writers; (pairs) every ordered pair of the 70-value core in 3 layouts (same row, same column, two sheets); (triples, thorough) every ordered triple of a 16-value core; (grid) every m*10^e, m=1..999, e=-20..20, both signs; (built) each value of the 16-value core in a workbook whose cells reached their place through 8 structural API calls (move/copy into fresh rows, insert/remove rows and columns); (overwrite) every sequence of 2 (thorough: 3) writes of the 16-value core into the SAME cell, with and without a save + reload between the writes (both writers): besides the round trip, the reloaded content must equal that of a workbook where only the last value was written (clause history-independent). Oracle: content projection (cell set, value text, kind, raw variant, f64 bits, rich runs, formula text) before save == after reload. distinct_nontrivial = distinct reloaded content dumps".into(),
             alphabets: json!({"text_atoms": ATOMS.iter().map(|a| a.0).collect::<Vec<_>>(), "single_values": single_values(ctx.tier).len(), "positions": POSITIONS, "core_values": core_values().len(), "core16": core16().len(), "formulas": FORMULAS, "errors": ERRORS, "number_thresholds": number_thresholds().len()}),
             bounds: json!({"text_atoms_max": if ctx.tier == Tier::Thorough {3} else {2}, "cells_per_workbook": "1 (singles), 2 (pairs), 3 (triples), 999 (grid)"}),
             exhaustive: true,
